@@ -42,7 +42,10 @@ for pid, meta in sorted(contracts.PROPERTIES.items()):
         "level_note": ("NOT decided by this check: " + " | ".join(meta.get("not_decided", [])) + ". Trusted base: pyvc engine and builtin models "
                        "(facts about CPython builtins sampled against the interpreter on every run), z3 5.1, cvc5 1.0.3, python ints as "
                        "mathematical integers; " + " | ".join(meta.get("trusted_base", []) + meta.get("assumptions", []))),
-        "technique": "contract-based deductive verification: VCs generated from the real Python source (ast, re-read every run) against sidecar contracts, discharged by z3 5.1 / cvc5 1.0.3",
+        "technique": ("contract-based deductive verification: VCs generated from the real Python source (ast, re-read every run) against "
+                      "sidecar contracts (pre/post/raises/modifies, loop invariants, ghost parameters, lemma-schema hints), discharged function "
+                      "by function by a portfolio: string-free EUF+LIA abstraction (z3) -> z3 5.1 -> cvc5 1.0.3; refutations replayed on the real code"
+                      + ("; plus labelled BOUNDED stand-ins, never counted as proved: " + ", ".join(b["name"] for b in meta["bounded"]) if meta.get("bounded") else "")),
     })
     NA.pop(pid, None)
 
@@ -58,7 +61,7 @@ manifest = {
     },
     "engines": [{
         "name": "pyvc", "path": "/verif/pyvc", "serves_properties": sorted(contracts.PROPERTIES),
-        "kind_free_text": "own VC generator: Python ast of /repo re-read every run -> typed symbolic execution against sidecar contracts (pre/post/raises/modifies, loop invariants, lemmas) -> z3 5.1 (python API) + cvc5 1.0.3 CLI portfolio; refutations replayed on the real code with /venv/bin/python",
+        "kind_free_text": "own VC generator: Python ast of /repo re-read every run -> typed symbolic execution against sidecar contracts (pre/post/raises/modifies, loop invariants, ghost parameters, lemmas) -> string-free EUF+LIA abstraction, z3 5.1 (python API) and cvc5 1.0.3 CLI portfolio; refutations replayed on the real code with /venv/bin/python (model replay, contract-guided witness search, or a family replay for abstract collaborators)",
     }],
     "checks": checks,
     "notes": "contract-based deductive verification of the real code; see DESIGN.md. fix: commits in /repo are listed in known_findings.json",
